@@ -20,6 +20,8 @@ void verif_note(const char* text);
 void ir2c_global_ctors(void);
 // file system helpers on the engine's in-memory VFS / the real scratch directory natively
 unsigned long verif_file_size(const char* path);             // (unsigned long)-1 if missing
+void verif_vfs_save(int slot);                                // snapshot / restore of the persistent files of the code under test (.ninja_log, .ninja_deps): control experiments
+void verif_vfs_restore(int slot);
 unsigned long verif_file_hash(const char* path);             // content hash, (unsigned long)-1 if missing
 void verif_vfs_freeze(int on);                               // while on, no stdio/unistd mutation persists ("the process is dead")
 long verif_vfs_events(void);                                 // number of persistence events so far
